@@ -4,6 +4,9 @@ import Driver.Common
 /-! Driver for the `Spawn` model (C08).
 
 ops:  `case` | `begin <name|-> <sup|-> <plain|instant>` → `ok|err-name`
+      `begintl <name|-> <sup|-> <plain|instant> <spawner>` → `ok|err-name|err-sup`   (thread-local flavour)
+      `block a` / `unblock a` (a's pre_start blocks its spawner thread) · `cutq a` (the spawn future of a
+      start still queued in the blocked spawner is dropped: takes effect when the spawner runs again)
       `join a g` `monitor a g` `selfsend a` `spawnchild a` `cast a` `call a`
       `finish a ok|err|panic` `cut a` `kill a` `stop a`     → `ok`
       `obs`  → snapshot `N[name>id,…] A[id:phase:groups:children:handled|…] E[sup>child:ev,…] P[WSER…]`
@@ -86,7 +89,7 @@ def judge (m : S) (snap : ISnap) : List String := Id.run do
       | none => pure ()
   return bad.eraseDups
 
-def step (m : S) (op impl : String) : S × StepOut :=
+def step0 (m : S) (op impl : String) : S × StepOut :=
   let simple (o : Op) (nt : Bool := false) : S × StepOut := (Spawn.step m o, { model := "ok", nontrivial := nt })
   match words op with
   | ["case"] => (init, { model := "ok" })
@@ -120,6 +123,37 @@ def step (m : S) (op impl : String) : S × StepOut :=
     (m, { model := snapshot m, oracle := orc, nontrivial := m.actors.any (·.failedStart) })
   | _ => (m, { model := "bad-op" })
 
-def run (ops impl : Array String) : IO Tally := replay init step ops impl
+/-- driver state: the model and the cuts of queued starts that have not taken effect yet -/
+structure St where
+  m : S := init
+  deferred : List Nat := []
+
+def step (st : St) (op impl : String) : St × StepOut :=
+  match words op with
+  | ["case"] => ({}, { model := "ok" })
+  | ["begintl", name, sup, _kind, _spawner] =>
+    let nm := if name == "-" then none else name.toNat?
+    let sp := if sup == "-" then none else sup.toNat?
+    let m' := Spawn.step st.m (.beginTL nm sp)
+    let clash := clashes st.m nm
+    let refused := refusedBy st.m sp
+    let model := if clash then "err-name" else if refused then "err-sup" else "ok"
+    let orc := if !clash && impl == "err-name" then ["c08.name-not-free"] else []
+    ({ st with m := m' }, { model := model, oracle := orc, nontrivial := clash || refused || !st.deferred.isEmpty })
+  | ["block", _] => (st, { model := "ok" })
+  | ["cutq", a] =>
+    match a.toNat? with
+    | some a => ({ st with deferred := st.deferred ++ [a] }, { model := "ok", nontrivial := isStarting st.m a })
+    | none => (st, { model := "bad-op" })
+  | ["unblock", _] =>
+    -- the spawner runs again: it builds the queued start-up futures whose spawn future is
+    -- gone and aborts them at once — the guard cleanup of a cut
+    let m' := st.deferred.foldl (fun m a => Spawn.step m (.cut a)) st.m
+    ({ m := m', deferred := [] }, { model := "ok", nontrivial := !st.deferred.isEmpty })
+  | _ =>
+    let (m', o) := step0 st.m op impl
+    ({ st with m := m' }, o)
+
+def run (ops impl : Array String) : IO Tally := replay ({} : St) step ops impl
 
 end Driver.C08
